@@ -76,7 +76,7 @@ def confirm(seed, wt):
         res["detail"] = out[-500:]
         return res
     meta = json.load(open(os.path.join(seed, "meta.json")))
-    race = "-race" in json.dumps(meta.get("demo_command", "")) and "without -race" not in json.dumps(meta)
+    race = bool(meta.get("race_detector_needed")) or ("-race" in json.dumps(meta.get("demo_command", "")) and "without -race" not in json.dumps(meta))
     ok0, out0 = run_demo(wt, seed, race)
     res["demo_passes_without_change"] = ok0
     if not ok0:
